@@ -620,16 +620,20 @@ impl<P: Payload> Proc<P> {
             match f {
                 Fut::Send(p) => {
                     std::ptr::drop_in_place(p);
+                    // the memory stays allocated (quarantine) but is poisoned: whoever still reads it gets garbage
+                    std::ptr::write_bytes(p as *mut u8, 0xA5, std::mem::size_of::<SendFuture<'static, P>>());
                     sched::record(sched::H_FUTDEAD, p as usize, 0, 0, None);
                     self.quarantine.push((p as *mut u8, std::alloc::Layout::new::<SendFuture<'static, P>>()));
                 }
                 Fut::Recv(p) => {
                     std::ptr::drop_in_place(p);
+                    std::ptr::write_bytes(p as *mut u8, 0xA5, std::mem::size_of::<ReceiveFuture<'static, P>>());
                     sched::record(sched::H_FUTDEAD, p as usize, 0, 0, None);
                     self.quarantine.push((p as *mut u8, std::alloc::Layout::new::<ReceiveFuture<'static, P>>()));
                 }
                 Fut::Stream(p) => {
                     std::ptr::drop_in_place(p);
+                    std::ptr::write_bytes(p as *mut u8, 0xA5, std::mem::size_of::<ReceiveStream<'static, P>>());
                     self.quarantine.push((p as *mut u8, std::alloc::Layout::new::<ReceiveStream<'static, P>>()));
                 }
                 Fut::None => {}
